@@ -430,4 +430,117 @@ theorem shared_id_witness :
     let s := sysRun (fun _ => true) cfg [.enable 0, .enable 1, .disable 1]
     liveCount s.sm 1 = 0 ∧ Spec.enabledAfter [.enable 0, .enable 1, .disable 1] 0 = true := by decide
 
+/-! ## "That binding's queue / name / group / snapshot list" is what the hook DECLARED
+
+The theorems above speak about the effective bindings (`htypes.ScheduleConfig`) the controller is given.
+The property speaks about the bindings of the hooks, i.e. the `schedule:` entries of their `--config`
+output — in the v1 format or in the legacy v0 format. `load` models `config_v0.go` / `config_v1.go`
+(`ConvertSchedule`, the group pass of `ConvertAndCheck`, `MergeArrays`). -/
+
+/-- **C11.5 (loading)** Every entry of every declared `schedule:` list, in either format, with any
+kubernetes bindings / groups around it, reaches the controller as the binding it declares: same id
+position, crontab and allowFailure, the declared name (`schedule` when absent), the declared queue (`main`
+when absent — always `main` in the v0 format), the declared group, and a snapshot list that is the
+declared one followed by the not yet listed names of the group's kubernetes bindings, each once. -/
+theorem loaded_binding_is_declared (df : Defaults) (v0 : Bool) (kubes : List KubeDecl)
+    (ds : List (Id × Decl)) :
+    load df v0 kubes ds = ds.map (fun p => loadOne df v0 kubes p.1 p.2) ∧
+    ∀ p ∈ ds, Spec.declaredAs df v0 kubes p.1 p.2 (loadOne df v0 kubes p.1 p.2) = true :=
+  ⟨load_eq_map df v0 kubes ds, fun p _ => loadOne_declaredAs df v0 kubes p.1 p.2⟩
+
+/-- The queue a declaration names: `main` unless a v1 entry has a `queue`. -/
+def declaredQueue (df : Defaults) (v0 : Bool) (d : Decl) : Nat :=
+  if v0 then df.mainQueue else d.queue.getD df.mainQueue
+
+/-- **C11.5 (queue)** The task of a declared entry names the declared queue. -/
+theorem declared_task_queue (df : Defaults) (v0 : Bool) (kubes : List KubeDecl) (h : Nat) (id : Id) (d : Decl) :
+    (Spec.bindingTask h (loadOne df v0 kubes id d)).queue = declaredQueue df v0 d := by
+  cases v0
+  · simp only [loadOne, Bool.false_eq_true, if_false, declaredQueue, Spec.bindingTask, mergeGroup]
+    cases groupSnaps df kubes (convertV1 df id d).group <;> cases hq : d.queue <;> simp [convertV1, hq]
+  · rfl
+
+/-- One task per enabled DECLARED entry with that crontab. -/
+def wantDeclaredTasks (df : Defaults) (v0 : Nat → Bool) (kubes : Nat → List KubeDecl)
+    (decls : Nat → List (Id × Decl)) (hooks : List Nat) (en : Nat → Bool) (c : Crontab) : List Task :=
+  hooks.flatMap (fun h =>
+    if en h then ((decls h).filter (fun p => p.2.crontab == c)).map
+      (fun p => Spec.bindingTask h (loadOne df (v0 h) (kubes h) p.1 p.2)) else [])
+
+/-- **C11.2 from the declarations (end to end)** For every set of hooks, each declaring its schedule
+entries in the v1 or in the v0 format (ids pairwise distinct), every enable/disable history, every map
+order and every parsable crontab: the tasks of one wall-clock tick are a permutation of exactly one
+task per enabled declared entry with that crontab; that task carries what the entry declares
+(`loaded_binding_is_declared`) and is placed in `declaredQueue` (`declared_task_queue`,
+`placed_in_binding_queue`). -/
+theorem declared_tick_one_task_per_enabled_binding (df : Defaults) (v0 : Nat → Bool)
+    (kubes : Nat → List KubeDecl) (decls : Nat → List (Id × Decl))
+    (valid : Crontab → Bool) (hooks : List Nat) (ord : Links → Links) (hord : ∀ l, (ord l).Perm l)
+    (hnd : ∀ h, ((decls h).map (·.1)).Nodup)
+    (huniq : ∀ h h' p p', p ∈ decls h → p' ∈ decls h' → p.1 = p'.1 → h = h')
+    (ops : List SysOp) (c : Crontab) (hv : valid c = true) :
+    (tickTasks ord hooks (sysRun valid (fun h => load df (v0 h) (kubes h) (decls h)) ops) c).Perm
+      (wantDeclaredTasks df v0 kubes decls hooks (Spec.enabledAfter ops) c) := by
+  have hcfg : ∀ h, load df (v0 h) (kubes h) (decls h) =
+      (decls h).map (fun p => loadOne df (v0 h) (kubes h) p.1 p.2) := fun h => load_eq_map _ _ _ _
+  have hids : ∀ h, (load df (v0 h) (kubes h) (decls h)).map (·.id) = (decls h).map (·.1) := by
+    intro h
+    rw [hcfg h, List.map_map]
+    apply List.map_congr_left
+    intro p _
+    exact loadOne_id _ _ _ _ _
+  have key := tick_one_task_per_enabled_binding valid (fun h => load df (v0 h) (kubes h) (decls h)) hooks ord hord
+    (fun h => by rw [hids h]; exact hnd h)
+    (by
+      intro h h' b b' hb hb' hid
+      rw [hcfg h, List.mem_map] at hb
+      rw [hcfg h', List.mem_map] at hb'
+      obtain ⟨p, hp, rfl⟩ := hb
+      obtain ⟨p', hp', rfl⟩ := hb'
+      rw [loadOne_id, loadOne_id] at hid
+      exact huniq h h' p p' hp hp' hid)
+    ops c hv
+  refine key.trans ?_
+  unfold Spec.wantTasks wantDeclaredTasks
+  have : ∀ h, (if Spec.enabledAfter ops h = true then
+        ((load df (v0 h) (kubes h) (decls h)).filter (fun b => b.crontab == c)).map (Spec.bindingTask h) else []) =
+      (if Spec.enabledAfter ops h = true then ((decls h).filter (fun p => p.2.crontab == c)).map
+        (fun p => Spec.bindingTask h (loadOne df (v0 h) (kubes h) p.1 p.2)) else []) := by
+    intro h
+    split
+    · rw [hcfg h, List.filter_map, List.map_map]
+      congr 1
+      apply List.filter_congr
+      intro p _
+      simp [Function.comp, loadOne_crontab]
+    · rfl
+  simp only [this]
+  exact List.Perm.refl _
+
+/-- Non-vacuity: a legacy (v0) hook with an unnamed entry and a v1 hook with a queue and a group, both
+enabled, crontab 1 fires: one task each, the v0 task in queue `main` (= 7) under the name `schedule`
+(= 9), the v1 task in its queue 8 with the group's kubernetes binding 5 in the snapshot list. -/
+example :
+    let df : Defaults := ⟨9, 7, 0⟩
+    let decls : Nat → List (Id × Decl) := fun h =>
+      if h = 0 then [(100, ⟨none, 1, [], true, none, 0⟩)]
+      else if h = 1 then [(101, ⟨some 4, 1, [], false, some 8, 6⟩)] else []
+    let v0 : Nat → Bool := fun h => h == 0
+    let kubes : Nat → List KubeDecl := fun h => if h = 1 then [⟨5, 6⟩, ⟨3, 0⟩] else []
+    tickTasks id [0, 1] (sysRun (fun _ => true) (fun h => load df (v0 h) (kubes h) (decls h)) [.enable 0, .enable 1]) 1 =
+      [⟨0, 9, 0, true, 9, [], 0, 7⟩, ⟨1, 4, 6, false, 4, [5], 6, 8⟩] := by
+  decide
+
+/-- The loader variant of the sixth-wave seeded change (v0 entries converted by a v1 converter that no
+longer defaults the queue, the default applied in the v1 group pass only) — NOT the code. -/
+def convertV0NoDefault (df : Defaults) (emptyQ : Nat) (id : Id) (d : Decl) : Binding :=
+  { convertV0 df id d with queue := emptyQ }
+
+/-- Witness: that variant hands the controller a binding that is not the declared one (its queue is the
+queue named "" and not `main`) — `Spec.declaredAs` is falsifiable, for every declaration. -/
+theorem v0_queue_default_witness (df : Defaults) (emptyQ : Nat) (kubes : List KubeDecl) (id : Id) (d : Decl)
+    (hne : emptyQ ≠ df.mainQueue) :
+    Spec.declaredAs df true kubes id d (convertV0NoDefault df emptyQ id d) = false := by
+  simp [Spec.declaredAs, convertV0NoDefault, convertV0, hne]
+
 end ShellOp.Schedule.C11
